@@ -229,6 +229,14 @@ class Calls:
         qual = decl['_qual']
         typestr = decl['type']['qualType']
         c = S.lookup(qual, typestr, decl.get('_targs'))
+        if c is None and (decl.get('isImplicit') or decl.get('explicitlyDefaulted') == 'default') and qual.endswith('::operator=') and this_path is not None and len(args) == 1:
+            # compiler-generated copy / move assignment: memberwise copy of the whole object
+            src = ex.ev(args[0])
+            if isinstance(src, RefVal):
+                src = ex.read(src.path)
+            if isinstance(src, SVal):
+                ex.write(this_path, src)
+                return RefVal(this_path)
         if c is None:
             m = prelude.model_for(qual)
             if m is not None:
